@@ -891,7 +891,18 @@ Proof.
 Qed.
 Lemma merge_sound p w w' : run_a (script fall (OMerge p)) w = (w', ROk) -> edit_ok fall w (OMerge p) w'.
 Proof.
-  cbn [script]. intros Hrun. destruct (on_tag_inv _ _ _ _ Hrun) as (_ & H & _). cbn [run_a apply_a] in H. injection H as <-. reflexivity.
+  cbn [script]. intros Hrun. destruct (on_tag_inv _ _ _ _ Hrun) as (_ & H & _). cbn [run_a apply_a] in H. injection H as <-. cbn [edit_ok].
+  destruct (w_rw (at_tag p merge_tree) w) as [[w1 []]|] eqn:Er; [right|left; reflexivity].
+  assert (Gid : forall s s' a, at_tag p merge_tree s = Some (s', a) -> iid s' = iid s).
+  { intros s s' a. unfold at_tag. destruct (has_id p s && nkind_eqb (ikind s) NTag)%bool; [|discriminate]. intros H. injection H as <- _.
+    destruct s. reflexivity. }
+  destruct (w_rw_flat _ Gid _ _ _ Er) as (Hds & Hlo & pre & post & s & s' & Hgs & E1 & E2).
+  unfold at_tag in Hgs. destruct (has_id p s && nkind_eqb (ikind s) NTag)%bool eqn:E; [|discriminate]. injection Hgs as <-.
+  apply andb_true_iff in E as [E _]. unfold has_id in E. apply N.eqb_eq in E.
+  exists pre, post, s, (merge_tree s). repeat split; auto.
+  - apply merge_tree_norm.
+  - apply merge_tree_merged.
+  - destruct (merge_tree_sub s) as [out H]. exists out. rewrite <- !items_ids. exact H.
 Qed.
 
 (* ------------------------------------------------------------------ detach(retain_child_nodes=True) *)
